@@ -29,6 +29,10 @@ FIELD_TYPE_OVERRIDES: Dict[str, V.Ty] = {}     # mangled field name -> type (onl
 ASSUMPTION_MARKERS: List[Tuple[str, str]] = []   # (kind, text) collected for the evidence "assumption scan"
 
 
+class NoWitness(Exception):
+    """A clause asks for an existential witness (a local variable) that does not exist at this exit: the clause fails there."""
+
+
 class Contract:
     def __init__(self, target: str) -> None:
         self.target = target
@@ -149,6 +153,21 @@ def invariant(target: str, loop: int = 0):
         iv = Invariant(target, loop)
         fn(iv)
         INVARIANTS[(target, loop)] = iv
+        return fn
+    return deco
+
+
+HINTS: Dict[Tuple[str, str, int], "Invariant"] = {}
+
+
+def hint(target: str, var: str, occurrence: int = 0):
+    """Intermediate assertion (a cut point in straight-line code) right after the `occurrence`-th assignment (source order) to local `var`
+    of function `target`: every clause is first an obligation there and then an assumption for what follows.  Pure proof guidance: it adds
+    obligations, never assumptions that are not proved."""
+    def deco(fn):
+        iv = Invariant(target, -1)
+        fn(iv)
+        HINTS[(target, var, occurrence)] = iv
         return fn
     return deco
 
@@ -335,6 +354,21 @@ class SpecState:
         return SV(self._result, self.h, self.ex)
 
     def sv(self, v: Val) -> SV: return SV(v, self.h, self.ex)
+
+    def witness(self, name: str, ty: V.Ty) -> SV:
+        """Existential witness of a postcondition: when the function is verified it is the value of local variable `name` at the
+        return (the clause is proved *for that value*); at a call site it is a fresh, otherwise unconstrained value of type `ty`
+        (the caller only learns that some such value exists)."""
+        loc = self.extra.get("locals")
+        if loc is not None:
+            if name not in loc:
+                raise NoWitness(f"no local {name} at this exit to witness the clause")
+            return SV(loc[name], self.h, self.ex)
+        sk = self.extra.setdefault("skolem", {})
+        if name not in sk:
+            v = V.fresh(ty, "wit_" + name)
+            sk[name] = v
+        return SV(sk[name], self.h, self.ex)
 
     def wrap(self, t, ty: V.Ty) -> SV: return SV(Val(ty, t), self.h, self.ex)
 
